@@ -250,7 +250,7 @@ def run_unit(unit):
                 if abs(f2_t - s * f2_0) > TOL * max(1.0, abs(s * f2_0)):
                     part.violation(PID, f'focal-length-{label}', 'Paraxial.f2', cfgc, det, observed=f2_t, expected=s * f2_0, tol=TOL)
                 if np.all(np.isfinite(S0)) and np.all(np.isfinite(St)):
-                    sc = max(1e-12, float(np.max(np.abs(S0))) * abs(s))
+                    sc = max(1e-9, float(np.max(np.abs(S0))) * abs(s))
                     if np.max(np.abs(St - s * S0)) > 1e-8 * sc:
                         part.violation(PID, f'seidel-sums-{label}', 'Aberrations.seidels', cfgc, det, observed=St, expected=s * S0,
                                        tol=1e-8)
@@ -278,12 +278,26 @@ def run_unit(unit):
     def admissible(kind, args, spx=None):
         """A dummy plane is a re-description only if it lies strictly between the two neighbouring surfaces along every
         traced ray (it must not cut through a curved neighbour inside the beam)."""
-        if kind != 'dummy' or spx is not None:
-            return True
-        j = args[0]
         zs = [0.0]
         for q in sp['surfs']:
             zs.append(zs[-1] + q['t'])
+        if kind == 'tilt':
+            # the sag describes one hemisphere only: the tilted description is the same surface only while every hit point stays
+            # well inside the hemisphere around the *new* vertex
+            k_, th_ = args[0], args[1]
+            R_ = sp['surfs'][k_]['R']
+            P_ = np.stack([r0['x'][k_ + 1], r0['y'][k_ + 1], r0['z'][k_ + 1]], axis=1)
+            okk = np.all(np.isfinite(P_), axis=1)
+            if not np.any(okk):
+                return False
+            C_ = np.array([0.0, 0.0, zs[k_] + R_])
+            v_ = (P_[okk] - C_) / abs(R_)
+            ax_ = np.array([0.0, 0.0, -1.0 if R_ > 0 else 1.0])
+            phi = np.arccos(np.clip(v_ @ ax_, -1, 1))
+            return bool(np.max(phi) + abs(th_) < 1.3)
+        if kind != 'dummy' or spx is not None:
+            return True
+        j = args[0]
         zd = zs[j] + 0.4 * sp['surfs'][j]['t']
         za, zb = r0['z'][j + 1], r0['z'][j + 2]
         okk = np.isfinite(za) & np.isfinite(zb)
@@ -371,7 +385,7 @@ def run_unit(unit):
                     part.violation(PID, 'scale_system-focal-length', 'Optic.scale_system', cfgc, det, observed=f2_l,
                                    expected=s * f2_0, tol=TOL)
                 if np.all(np.isfinite(S0)) and np.all(np.isfinite(Sl)):
-                    sc = max(1e-12, float(np.max(np.abs(S0))) * abs(s))
+                    sc = max(1e-9, float(np.max(np.abs(S0))) * abs(s))
                     if np.max(np.abs(Sl - s * S0)) > 1e-8 * sc:
                         part.violation(PID, 'scale_system-seidel-sums', 'Optic.scale_system', cfgc, det, observed=Sl, expected=s * S0,
                                        tol=1e-8)
